@@ -72,7 +72,29 @@ func findRepo(w *World) (*repoAnchors, error) {
 		return nil, fmt.Errorf("FindRule / mutators of the repository not resolved")
 	}
 	sort.Slice(a.mutators, func(i, j int) bool { return a.mutators[i].Name() < a.mutators[j].Name() })
+	initNodeValuesField(a)
 	return a, nil
+}
+
+// nodeValuesField: the name of the node field holding the values stored at a node - the tree
+// struct's slice field whose element type is the tree's value type argument (resolved by type, so
+// that renaming the field does not lose the anchor). Falls back to "values".
+var nodeValuesFieldName = "values"
+
+func initNodeValuesField(ra *repoAnchors) {
+	if ra == nil || ra.treeT == nil || ra.treeT.TypeArgs() == nil || ra.treeT.TypeArgs().Len() == 0 {
+		return
+	}
+	st, ok := ra.treeT.Underlying().(*types.Struct)
+	if !ok {
+		return
+	}
+	arg := ra.treeT.TypeArgs().At(0)
+	for i := 0; i < st.NumFields(); i++ {
+		if sl, ok := st.Field(i).Type().Underlying().(*types.Slice); ok && types.Identical(sl.Elem(), arg) {
+			nodeValuesFieldName = st.Field(i).Name()
+		}
+	}
 }
 
 // treeMethod returns the instantiated method of the repository's tree type.
@@ -887,7 +909,7 @@ func c06Constraint(w *World, r *Report, ra *repoAnchors) {
 	ok, n := true, 0
 	eachInstr(add, func(in ssa.Instruction) {
 		st, isSt := in.(*ssa.Store)
-		if !isSt || !pathEndsWith(st.Addr, "values") {
+		if !isSt || !pathEndsWith(st.Addr, nodeValuesFieldName) {
 			return
 		}
 		n++
@@ -1099,7 +1121,7 @@ func c06NodeRemoval(w *World, r *Report, ra *repoAnchors) {
 			}
 			// len(<child>.values)
 			root, p := accessPath(l)
-			if len(p) == 0 || p[len(p)-1] != "values" {
+			if len(p) == 0 || p[len(p)-1] != nodeValuesFieldName {
 				return false
 			}
 			cr, _ := accessPath(child)
